@@ -21,11 +21,14 @@ pub fn parse_char_list(input: &str) -> Result<String, DataError> {
         }
     }
 
-    if start_quote_count == input.len() {
+    // lengths are in characters: the literal may contain multi-byte characters
+    let char_count = input.chars().count();
+
+    if start_quote_count * 2 >= char_count {
         return Ok(new);
     }
 
-    let real_len = input.len() - start_quote_count * 2;
+    let real_len = char_count - start_quote_count * 2;
 
     let mut check_escape = false;
     let mut in_unicode = false;
